@@ -754,8 +754,11 @@ def main(chk):
         # file's: collapsing same-named types across files is C13's subject, not modelled here
         pb = dict(size=rng.choice(("tiny", "small")), strings="plain", flags="random", dup_names=0.2)
         add({"kind": "lookup", "a": syn(pa), "b": syn(pb), "seed": rng.randrange(1 << 30), "mutate": chk.pick(8, 40)})
+    # an interrogate-written file first, a synthetic one second (two real files always share the built-in types,
+    # whose collapsing is C13's subject)
     add({"kind": "lookup", "a": {"real": {"header": "rich1", "opts": _c12.BACKENDS[1]}},
-         "b": {"real": {"header": "rich2", "opts": _c12.BACKENDS[1]}}, "seed": rng.randrange(1 << 30), "mutate": 10})
+         "b": syn(dict(size="small", strings="plain", flags="random", dup_names=0.2)),
+         "seed": rng.randrange(1 << 30), "mutate": 10})
     # unique-name tables: every size 0..12
     for k in range(0, 13):
         for style in (("numeric", "prefixes") if chk.quick() else ("numeric", "prefixes", "random", "numeric")):
